@@ -410,8 +410,11 @@ impl Prop for C20 {
             Some(rng.random_range(0..=total_lines + 2))
         };
         let (use_characters, char_grams) = match rng.random_range(0..10) {
-            // (character mode compiles a regex per word in the repo: 0.4 ms per word)
-            _ if flood_line.is_some() => (false, if rng.random_bool(0.5) { 1 } else { 3 }),
+            // (character mode compiles a regex per word in the repo, 0.4 ms per word: lines of
+            // hundreds of words and flood lines are counted in word mode only; a thorough run of
+            // the first version had a case of 150 lines x 2000 words in character mode that burnt
+            // the 120 CPU seconds of the non-termination budget)
+            _ if flood_line.is_some() || wscale > 10 => (false, if rng.random_bool(0.5) { 1 } else { 3 }),
             0..=4 => (false, if rng.random_bool(0.5) { 1 } else { 3 }),
             5..=6 => (true, 1),
             _ => (true, 3),
